@@ -20,7 +20,9 @@
                         yields the same tree and the same remaining input; it raises only
                         ValueError("bad encoding" / "blob too large"), never IndexError
      C28_decoder_current  the same for the decoder the translator found in ser.py on this run,
-                        under the premise that it has that check (false today: F4)
+                        under the premise that it has that check
+     C28_decoder        ... and that premise holds for the source as it is (this theorem stops compiling
+                        if the check disappears from ser.py; the search then produces F4's input)
      C28_decoder_known_class  the UNREPAIRED decoder already agrees on every byte string that
                         contains no byte 0xfe
      C28_refuted        (finding F4) the unrepaired decoder accepts fe 00 00 00 00 00 01 61
@@ -52,7 +54,8 @@
                         by K (every dialect, every program).
    What "equals" cannot mean: with the SAME finite budget the two runs differ when the budget lies
    within K of the module's cost (the curried run fails with CostExceeded); C28_run_witness shows it.
-   The level stays below proof because of F4 (C28_refuted: the unrepaired stream decoder).
+   F4 (C28_refuted) is about the decoder WITHOUT the size-field check; the source has the check today
+   (repaired in /repo), which is what C28_decoder states for the decoder the translator reads.
    Modelling conventions that a reader must know: `Program != bytes` (a tree-hash comparison in
    Python) is structural inequality in the model (sha256 collision-freeness is not assumed by any
    theorem, it is assumed by this reading of `!=`); the `_cached_serialization` shortcut of
@@ -84,6 +87,10 @@ Proof. intros bs H. apply py_decoder_agrees. left. split; [reflexivity|exact H].
 Theorem C28_decoder_current : py_current_limit = Some 6 -> forall bs, wf_bytes bs = true ->
   agrees (py_sexp_from_stream py_current_limit bs) (node_from_stream bs).
 Proof. intros E bs H. rewrite E. apply py_decoder_agrees. left. split; [reflexivity|exact H]. Qed.
+
+Theorem C28_decoder : forall bs, wf_bytes bs = true ->
+  agrees (py_sexp_from_stream py_current_limit bs) (node_from_stream bs).
+Proof. exact (C28_decoder_current eq_refl). Qed.
 
 Theorem C28_decoder_known_class : forall bs,
   forallb (fun b => (b <? 256) && negb (b =? 0xfe)) bs = true ->
@@ -179,6 +186,7 @@ Proof. vm_compute. repeat split. Qed.
 Print Assumptions C28_serializer.
 Print Assumptions C28_decoder_fixed.
 Print Assumptions C28_decoder_current.
+Print Assumptions C28_decoder.
 Print Assumptions C28_decoder_known_class.
 Print Assumptions C28_refuted.
 Print Assumptions C28_int_from_bytes.
